@@ -6,9 +6,9 @@ CONSTANTS
   Dev = {}
   LENS = {1, 170, 171, 355}
   HDRS = {"pts", "none", "full"}
-  AFS = {"none", "raipcr", "priv10", "big", "bigrai"}
+  AFS = {"none", "raipcr", "priv10", "big", "bigrai", "huge"}
   BIGS = {FALSE, TRUE}
-  PKTS = {"null", "toobig", "pcr"}
+  PKTS = {"null", "toobig", "pcr", "hugeaf", "hugestuff"}
 VIEW View
 ACTION_CONSTRAINT ExportEdge
 CHECK_DEADLOCK FALSE
